@@ -29,6 +29,7 @@ mod core;
 mod ev;
 mod vgen;
 mod mv;
+mod proggen;
 mod rng;
 mod syn;
 
